@@ -240,6 +240,95 @@ theorem pass_ode (L : Lits α) (P : Params α) (s : State α) (o : PassOracle α
           obtain ⟨⟨j, hj, hj2⟩, _, ht, _⟩ := hf
           exact ⟨nn, j, hj, by have := hN.1; omega, by omega⟩
 
+/-! ### `Success` only at `xend`, in every arithmetic (the landing step ends at `xend` itself) -/
+
+def SuccOK (P : Params α) : Sum (State α) (Result α) → Prop
+  | .inl _ => True
+  | .inr r => r.status = .success → r.x = P.xend
+
+theorem SuccOK_failure (L : Lits α) (P : Params α) (s : State α) (cnt : Counters) (d : Bool) : SuccOK P (failure L s cnt d) := by
+  unfold failure
+  split
+  · intro h; cases h
+  · trivial
+
+theorem SuccOK_accepted (L : Lits α) (P : Params α) (s : State α) (o : PassOracle α) (h hhfac theta thqold dynold faccon err : α)
+    (newt : Nat) (quot hnew : α) (cnt : Counters) (last : Bool) (xph : α) (hl : last = true → xph = P.xend) :
+    SuccOK P (accepted L P s o h hhfac theta thqold dynold faccon err newt quot hnew cnt last xph) := by
+  unfold accepted
+  dsimp only
+  split
+  · intro h; cases h
+  · split
+    · rename_i hlast
+      intro _; exact hl hlast
+    · repeat' split
+      all_goals first
+        | trivial
+        | (intro h; cases h)
+
+theorem SuccOK_finishStep (L : Lits α) (P : Params α) (s : State α) (o : PassOracle α) (newt : Nat) (theta thqold dynold faccon h hhfac : α)
+    (last : Bool) (cnt : Counters) (xph : α) (hl : last = true → xph = P.xend) :
+    SuccOK P (finishStep L P s o newt theta thqold dynold faccon h hhfac last cnt xph) := by
+  unfold finishStep
+  dsimp only
+  repeat' split
+  all_goals first
+    | exact SuccOK_accepted _ _ _ _ _ _ _ _ _ _ _ _ _ _ _ _ _ hl
+    | trivial
+    | (intro h; cases h)
+
+theorem SuccOK_decompose (L : Lits α) (P : Params α) (s : State α) (o : PassOracle α) (r : Sum (State α) (Result α))
+    (h : decompose L s o = .inl r) : SuccOK P r := by
+  unfold decompose at h
+  dsimp only at h
+  split at h
+  · split at h
+    · injection h with h; rw [← h]; exact SuccOK_failure ..
+    · split at h
+      · injection h with h; rw [← h]; exact SuccOK_failure ..
+      · cases h
+  · cases h
+
+/-- one pass: whatever the factorisations, the Newton iteration, the error estimates and the callback answer, a pass that
+    reports `Success` ends at `xend` itself — no arithmetic is used, so this holds at `Float` too -/
+theorem pass_success_exact (L : Lits α) (P : Params α) (s : State α) (o : PassOracle α) : SuccOK P (pass L P s o) := by
+  unfold pass
+  cases hd : decompose L s o with
+  | inl r => exact SuccOK_decompose L P s o r hd
+  | inr cnt =>
+    dsimp only
+    split
+    · intro h; cases h
+    · split
+      · intro h; cases h
+      · have hN := newtonLoop_last L P (P.maxNewton + 1) o.dynos 0 (Num.abs L.thet) s.thqold s.dynold
+          (Num.pow (Num.fmax s.faccon P.uround) L.p8) s.h s.hhfac cnt.rejected s.last cnt.ode
+        split
+        · intro h; cases h
+        · exact SuccOK_failure ..
+        · rename_i heq
+          rw [heq] at hN
+          exact SuccOK_finishStep _ _ _ _ _ _ _ _ _ _ _ _ _ _ (fun hl => by simp [hN hl])
+
+/-- **C03 (Radau), every arithmetic.**  A run of the control model that reports `Success` ends at `xend` bit for bit. -/
+theorem run_success_exact (L : Lits α) (P : Params α) : ∀ (os : List (PassOracle α)) (s : State α),
+    ∀ r, run L P os s = some r → r.status = .success → r.x = P.xend := by
+  intro os
+  induction os with
+  | nil => intro s r h; simp [run] at h
+  | cons o os ih =>
+    intro s r h hs
+    unfold run at h
+    have hp := pass_success_exact L P s o
+    split at h
+    · rename_i r' heq
+      injection h with h
+      rw [heq] at hp
+      rw [← h]; exact hp (by rw [h]; exact hs)
+    · rename_i s' heq
+      exact ih s' r h hs
+
 end any
 
 noncomputable section
